@@ -14,6 +14,7 @@ mod st;
 mod c07;
 mod c08;
 mod c09;
+mod c10;
 mod c11;
 mod c12;
 
@@ -110,6 +111,7 @@ fn gen(prop: &str, tier: &str, seed: u64) -> Vec<String> {
         "C07" => c07::gen(tier, &mut r),
         "C08" => c08::gen(tier, &mut r),
         "C09" => c09::gen(tier, &mut r),
+        "C10" => c10::gen(tier, &mut r),
         "C11" => c11::gen(tier, &mut r),
         "C12" => c12::gen(tier, &mut r),
         _ => panic!("unknown property {prop}"),
@@ -121,6 +123,7 @@ fn exec(prop: &str, case: &str) -> Exec {
         "C07" => c07::exec(case),
         "C08" => c08::exec(case),
         "C09" => c09::exec(case),
+        "C10" => c10::exec(case),
         "C11" => c11::exec(case),
         "C12" => c12::exec(case),
         _ => panic!("unknown property {prop}"),
